@@ -224,3 +224,17 @@ prop("C03",
      level_note="Trusted: Lean kernel; kernel ptrace/seccomp rules are modelled (assumed) and sampled by the real runs; hand model tied to regenerated code by kernel evaluation on a finite register sample. One defect repaired (fix: commit)",
      technique="Lean 4 proofs by induction over programs + decide +kernel on regenerated Go-lite code + differential on real ptrace runs",
      timeout={"quick": 900, "thorough": 3600})
+
+prop("C05",
+     trusted_base=["Model/MountNS.lean: an abstract kernel mount namespace (mounts attached at (parent mount, path); a new bind mount ignores MS_RDONLY, MS_REMOUNT|MS_BIND sets the per-mount read-only bit; pivot_root; lazy unmount of the old root; directories created in the root tmpfs; path lookup as a fold over mounts in creation order) and `opsFor`, the hand skeleton of the mount sequence",
+                   "Model/MountGen.lean: the regenerated Builder methods, pathPrefix, isBindMountFileOrNotExists, Mount.Mount, ensureMountTargetExists, initFileSystem, maskPath (Gen.C05) and forkAndExecInChild (Gen.ForkChild) run by Go-lite; their call traces read as operation lists",
+                   "tie: both implementations on random tables with the probe inside: /proc/<pid>/mountinfo from the host at the sync point, write attempts under every mount, listing of /, reachability of old_root and unbound host paths, masks"],
+     assumptions=["kernel mount semantics as modelled (bind ignores MS_RDONLY until remounted; per-mount read-only; detach of the old root makes the host tree unreachable)",
+                  "bind sources without separately mounted writable submounts (open known finding ro-rbind-rw-submount)",
+                  "the container's MaskPaths need /dev/null inside the container (open known finding mask-needs-dev-null)",
+                  "what a bound host directory contains is the caller's choice: 'nothing of the host outside the declared bind sources'"],
+     not_covered="device nodes and suid semantics of the bound trees (flags are checked, kernel enforcement is not); overlay/shared-subtree propagation other than the initial MS_PRIVATE",
+     level_text="Theorem for EVERY mount table (C05_namespace): if the sequence succeeds the namespace is the read-only root tmpfs followed by exactly the configured entries with their declared file system and read-only bit (the remount lands on the mount just made), followed by the masks; the host tree is detached; every directory created in the root is a prefix of a configured target or symlink path; writable(path) = the landing mount is not read-only. Kernel-evaluated: the operation sequences of the regenerated raw-child and container code equal the skeleton on tables with ro/rw directory and file binds, nested targets, tmpfs, proc ro/rw, symlinks, file and directory masks; the builder's flag words. Differential on both real implementations",
+     level_note="Trusted: Lean kernel; kernel mount semantics are modelled (assumed) and sampled on the real kernel by the differential; skeleton tied to regenerated code by kernel evaluation on a finite set of tables plus the per-run driver comparison. Two open known findings",
+     technique="Lean 4 proof by induction over the mount table + decide +kernel on regenerated Go-lite code + differential on real mount namespaces",
+     timeout={"quick": 900, "thorough": 3600})
